@@ -5,8 +5,8 @@ cd /verif
 S=${1:-2}
 for d in seeded/C*; do
   p=$(python3 -c "import json,sys; print(json.load(open('$d/meta.json'))['property'].split()[0])")
-  if ! git -C /repo apply --check $d/patch.diff 2>/dev/null; then echo "$d: patch does not apply any more"; continue; fi
-  git -C /repo apply $d/patch.diff
+  if ! git -C /repo apply --check /verif/$d/patch.diff 2>/dev/null; then echo "$d: patch does not apply any more"; continue; fi
+  git -C /repo apply /verif/$d/patch.diff
   r=$(VERIF_SEED=$S ./check $p --tier quick 2>&1 | grep "tier=" | tail -1)
   git -C /repo checkout -- .
   echo "$d: $r"
